@@ -475,3 +475,108 @@ def check_C18(tier, seed):
     return finish_probes("C18", tier, seed, t0, proof, failures, tie, cov, widen=None,
                          assumptions=["rustc's borrow checker / auto-trait solver are the judge (not modelled); safe Rust without unsafe blocks is borrow-sound (rustc's guarantee)",
                                       "std's auto-trait, Copy and variance facts for Vec<T>, &[T], &mut [T], &T, &mut T, *const T, *mut T, slice::Iter, slice::IterMut (ctorAuto / ctorCopy / ctorCovariant*)"])
+
+
+# ---------------------------------------------------------------------------------------------- C13
+
+def compile_shapes(shapes, tag, batch=12):
+    """compile the declarations under the strict lint header (several modules per crate; a crate that fails is split);
+    returns {sid: (ok, codes, first error)}"""
+    from . import shapegen as sg
+    batches = [shapes[i:i + batch] for i in range(0, len(shapes), batch)]
+    def run_batch(ix_b):
+        ix, b = ix_b
+        ok, codes, err = probes.check_compile(f"shape_{tag}_{ix}", sg.LINT_HEADER + "".join(s.module() for s in b), extra=["--crate-type", "lib"])
+        return b, ok, codes, err
+    res = {}
+    singles = []
+    for b, ok, codes, err in probes.parallel(run_batch, list(enumerate(batches))):
+        if ok:
+            for s in b: res[s.sid] = (True, [], "")
+        else:
+            singles += b
+    def run_one(s):
+        ok, codes, err = probes.check_compile(f"shape_{tag}_s{s.sid}", sg.LINT_HEADER + s.module(), extra=["--crate-type", "lib"])
+        first = next((l for l in err.splitlines() if l.startswith("error")), err[:200])
+        return s, ok, codes, first
+    for s, ok, codes, first in probes.parallel(run_one, singles):
+        res[s.sid] = (ok, codes, first)
+    return res, len(batches) + len(singles)
+
+
+def shape_failures(shapes, res):
+    from . import shapegen as sg
+    out = []
+    for s in shapes:
+        ok, codes, first = res[s.sid]
+        if ok: continue
+        feat = []
+        if s.cls == "hygiene":
+            fam = next((f for f in sorted(sg.extracted_families(), key=len, reverse=True) if s.note.startswith(f + "_")), None)
+            feat.append("private:" + fam if fam else "name:" + s.note)
+        else:
+            if s.drop: feat.append("drop")
+            if "Clone" in s.soa_derives: feat.append("cloneapi")
+            if s.nested is not None: feat.append("nested")
+            if s.cls == "corner": feat.append(re.sub(r"[^a-z0-9]+", "-", s.note.lower())[:40])
+        key = f"C13:compile:{s.cls}:{'+'.join(feat) or 'plain'}:{'+'.join(codes) or 'lint'}"
+        out.append(ProbeFailure(key, f"the derive on this declaration does not compile warning-free ({s.note or s.cls}): {first}\n{s.decl()[:400]}",
+                                sg.LINT_HEADER + s.module(), "compiles", "rejected " + ",".join(codes), replay_kind="compile",
+                                extra={"rustc_args": ["--crate-type", "lib"]}))
+    return out
+
+
+def check_C13(tier, seed):
+    from . import shapegen as sg
+    t0 = time.time()
+    proof = prove("C13", ["Soa.Props.C13"])
+    n = 150 if tier == "quick" else 1500
+    shapes = sg.grammar(n, seed)
+    hyg = sg.hygiene_corpus(100000)
+    corner = sg.corner_corpus(200000)
+    allshapes = shapes + hyg + corner
+    res, nprog = compile_shapes(allshapes, "main")
+    failures = shape_failures(allshapes, res)
+    tie = []
+    # rejection corpus: a diagnostic, and the one the derive documents
+    def rej(r):
+        name, decl, msg = r
+        ok, codes, err = probes.check_compile("reject_" + name, sg.rejection_program(decl))
+        return name, decl, msg, ok, err
+    for name, decl, msg, ok, err in probes.parallel(rej, sg.REJECTIONS):
+        prog = sg.rejection_program(decl)
+        if ok:
+            failures.append(ProbeFailure(f"C13:accepted-unsupported:{name}", f"unsupported input is accepted (code is generated): {decl}", prog, "rejected", "compiles", replay_kind="compile"))
+        elif "proc-macro derive panicked" not in err and "only supports" not in err:
+            failures.append(ProbeFailure(f"C13:no-diagnostic:{name}", f"unsupported input fails without the derive's diagnostic: {err[:300]}", prog, "rejected", "rejected " + err[:100], replay_kind="compile"))
+        elif msg not in err:
+            tie.append((f"rejection `{name}`: the diagnostic changed (expected a message containing `{msg}`)", {"stderr": err[:400]}))
+    # API completeness
+    ok, out, err = probes.build_and_run("api_complete", sg.API_PROGRAM)
+    if not ok or "DONE api" not in out:
+        first = next((l for l in err.splitlines() if l.startswith("error")), err[:200])
+        failures.append(ProbeFailure("C13:api:" + ",".join(sorted(set(re.findall(r"error\[(E\d+)\]", err)))[:3]), f"the documented API is not fully provided: {first}", sg.API_PROGRAM, "compiles and runs", first))
+
+    def widen():
+        more = sg.grammar(1200, seed + 1)
+        r2, _ = compile_shapes(more, "widen")
+        return shape_failures(more, r2)
+    hist = collections.Counter()
+    for s in allshapes: hist[f"{s.cls}:{'ok' if res[s.sid][0] else 'fail'}"] += 1
+    nfields = collections.Counter(len(s.fields) for s in shapes)
+    cov = {
+        "evaluations": len(allshapes) + len(sg.REJECTIONS) + 1, "distinct_nontrivial": len({s.decl() for s in allshapes}) + len(sg.REJECTIONS) + 1,
+        "rule": "one evaluation = one declaration compiled against /repo under the lint header of example/lib.rs (deny(warnings) + 20 named lints), as a module of a lib crate: "
+                "shape grammar sampled by seed (1..12 fields, 23 field types incl. non-Clone/non-Debug/zero-sized/arrays/tuples/std generics/fn pointers/trait objects, names from plain, "
+                "raw-identifier, method-name pools and EVERY fixed local identifier extracted from the generated code, three visibilities per struct and field, derive/soa_derive/soa_attr sets, "
+                "nested fields, Drop), a hygiene corpus (one struct per reserved identifier incl. every private binder family x index), a corner corpus, 13 rejected declarations, and an API program. "
+                "distinct = distinct declaration texts",
+        "samples": [s.desc() for s in shapes[:2]] + [hyg[0].desc()],
+        "programs": nprog + len(sg.REJECTIONS) + 1, "class_histogram": dict(hist), "field_count_histogram": {str(k): v for k, v in sorted(nfields.items())},
+        "name_pool_size": len(sg.extracted_locals()), "traces_validated_against_impl": len(allshapes),
+        "explanation": "the compile-and-lint verdicts are rustc's; they are supporting evidence, not proof (partial)",
+    }
+    return finish_probes("C13", tier, seed, t0, proof, failures, tie, cov, widen=widen,
+                         assumptions=["rustc's type checker and lints are not modelled: warning-free compilation is observed on the sampled declarations only",
+                                      "the binder-event extraction (syn visitor in /verif/extract) lists every let / closure / match / for binder and every single-identifier path use of a generated function",
+                                      "hygiene theorems are about the three-field schematic struct; uniformity of the generator in the number of fields is assumed (and sampled by the probes)"])
